@@ -534,12 +534,25 @@ bool exec_str_b(Ctx &c, const Op &op) {
         ST_ssize_t sst = neg ? -(ST_ssize_t)st : (ST_ssize_t)st;
         bool all = cnt == ST_AUTO_SIZE || cnt >= sz, from0 = (!neg && st == 0) || (neg && st >= sz);
         bool whole = (which == 0 && from0 && all) || (which == 1 && all) || (which == 2 && (cnt == ST_AUTO_SIZE || cnt == sz)) || (which == 3 && from0);
-        note_sig(c, op, std::string("obj=") + cl(x) + ",which=" + std::to_string(which) + (whole ? ",whole" : ""));
+        // one call in four is made on an expiring copy of the receiver - std::move(t).substr(...): where a member has an rvalue-qualified twin that
+        // may reuse the receiver's storage, that twin runs; the result joins the pool and is judged like any other, the copy dies at once
+        const bool expiring = ((op.d >> 3) & 3) == 0;
+        note_sig(c, op, std::string("obj=") + cl(x) + ",which=" + std::to_string(which) + (whole ? ",whole" : "") + (expiring ? ",rvalue" : ""));
         c.budget_bytes = sz * 2;
         as_const(x);
         if (whole) probe(c, PR_RESULT_EQUALS_SOURCE);
         void *mem = obj_alloc(sizeof(S));
         ExcKind ex = run_sut(c, op, [&] {
+            if (expiring) {
+                S t(*x->p());
+                switch (which) {
+                case 0: FRESH(S, std::move(t).substr(sst, cnt)); break;
+                case 1: FRESH(S, std::move(t).left(cnt == ST_AUTO_SIZE ? sz : cnt)); break;
+                case 2: FRESH(S, std::move(t).right(cnt == ST_AUTO_SIZE ? sz : cnt)); break;
+                default: FRESH(S, std::move(t).substr(sst)); break;
+                }
+                return;
+            }
             const S &s = *x->p();
             switch (which) {
             case 0: FRESH(S, s.substr(sst, cnt)); break;
